@@ -12,6 +12,10 @@ pub struct GenQuery {
     /// outermost ORDER BY present
     pub ordered: bool,
     pub limited: bool,
+    /// the same query without LIMIT / OFFSET (when `limited`)
+    pub unlimited_sql: Option<String>,
+    /// ORDER BY keys as (output column name, descending)
+    pub order_keys: Vec<(String, bool)>,
 }
 
 #[derive(Clone, Debug)]
@@ -540,18 +544,26 @@ fn gen_select(r: &mut Rng, cat: &Catalog, feats: &mut Vec<&'static str>, allow_o
     sql.push_str(&format!(" FROM {}{}{}{}", from.sql, wher, group_by, having));
     let mut ordered = false;
     let mut limited = false;
+    LAST_ORDER.with(|o| o.borrow_mut().clear());
+    LAST_UNLIMITED.with(|o| *o.borrow_mut() = None);
     if allow_order {
         if r.chance(1, 3) && !order_candidates.is_empty() {
             feats.push("order_by");
             let n = 1 + r.usize(2.min(order_candidates.len()));
             let mut keys = order_candidates.clone();
             r.shuffle(&mut keys);
-            let keys: Vec<String> = keys.into_iter().take(n).map(|k| format!("{}{}", k, r.pick(&["", " ASC", " DESC"]))).collect();
-            sql.push_str(&format!(" ORDER BY {}", keys.join(", ")));
+            let mut rendered = vec![];
+            for k in keys.into_iter().take(n) {
+                let dir = *r.pick(&["", " ASC", " DESC"]);
+                LAST_ORDER.with(|o| o.borrow_mut().push((k.clone(), dir == " DESC")));
+                rendered.push(format!("{}{}", k, dir));
+            }
+            sql.push_str(&format!(" ORDER BY {}", rendered.join(", ")));
             ordered = true;
         }
         if r.chance(1, 5) {
             feats.push("limit");
+            LAST_UNLIMITED.with(|o| *o.borrow_mut() = Some(sql.clone()));
             sql.push_str(&format!(" LIMIT {}", r.range(0, 6)));
             limited = true;
             if r.chance(1, 3) {
@@ -561,6 +573,11 @@ fn gen_select(r: &mut Rng, cat: &Catalog, feats: &mut Vec<&'static str>, allow_o
         }
     }
     (sql, from.ctes, out_tys, ordered, limited)
+}
+
+thread_local! {
+    static LAST_ORDER: std::cell::RefCell<Vec<(String, bool)>> = std::cell::RefCell::new(vec![]);
+    static LAST_UNLIMITED: std::cell::RefCell<Option<String>> = std::cell::RefCell::new(None);
 }
 
 pub fn gen_query(r: &mut Rng, cat: &Catalog) -> GenQuery {
@@ -589,9 +606,11 @@ pub fn gen_query(r: &mut Rng, cat: &Catalog) -> GenQuery {
         let mut seen = std::collections::HashSet::new();
         ctes.retain(|c| seen.insert(c.split(' ').next().unwrap_or("").to_string()));
         let with = if ctes.is_empty() { String::new() } else { format!("WITH {} ", ctes.join(", ")) };
-        return GenQuery { sql: format!("{}{} {} {}", with, l, op, rr), features: feats, ordered: false, limited: false };
+        return GenQuery { sql: format!("{}{} {} {}", with, l, op, rr), features: feats, ordered: false, limited: false, unlimited_sql: None, order_keys: vec![] };
     }
     let (s, ctes, _, ordered, limited) = gen_select(r, cat, &mut feats, true, None, true);
     let with = if ctes.is_empty() { String::new() } else { format!("WITH {} ", ctes.join(", ")) };
-    GenQuery { sql: format!("{}{}", with, s), features: feats, ordered, limited }
+    let order_keys = LAST_ORDER.with(|o| o.borrow().clone());
+    let unlimited_sql = LAST_UNLIMITED.with(|o| o.borrow().clone()).map(|u| format!("{}{}", with, u));
+    GenQuery { sql: format!("{}{}", with, s), features: feats, ordered, limited, unlimited_sql, order_keys }
 }
